@@ -3,12 +3,14 @@
 Inputs: /tmp/mut/<ID>.out/{change<k>.diff,demo<k>.rs,notes.md}, /tmp/mut/validation.json (dev/validate_mutants.py),
 optionally /tmp/mut/matrix.json (dev/run_mutants.py output lines) for the detection table."""
 import json, os, re, shutil, sys
+ROOT = os.environ.get("MUT_ROOT", "/tmp/mut")
+OFF = int(os.environ.get("MUT_OFFSET", "0"))
 
 V = "/verif/seeded"
-val = {r["id"]: r for r in json.load(open("/tmp/mut/validation.json"))}
+val = {r["id"]: r for r in json.load(open(ROOT + "/validation.json"))}
 matrix = {}
-if os.path.exists("/tmp/mut/matrix.jsonl"):
-    for l in open("/tmp/mut/matrix.jsonl"):
+if os.path.exists(ROOT + "/matrix.jsonl"):
+    for l in open(ROOT + "/matrix.jsonl"):
         try:
             r = json.loads(l)
         except Exception:
@@ -17,13 +19,13 @@ if os.path.exists("/tmp/mut/matrix.jsonl"):
             matrix.setdefault(r[0], {})[r[1]] = {"verdict": r[2], "first_reports": r[4] if len(r) > 4 else []}
 head = os.popen("git -C /repo rev-parse --short HEAD").read().strip()
 for pid in ["C%02d" % i for i in range(1, 21)]:
-    out = "/tmp/mut/%s.out" % pid
+    out = ROOT + "/%s.out" % pid
     if not os.path.isdir(out):
         continue
     notes = open(os.path.join(out, "notes.md")).read() if os.path.exists(os.path.join(out, "notes.md")) else ""
     secs = re.split(r"\n(?=##+ +(?:Change|change|Mutant|Seeded change|\d+[.)]))", notes)
     for k in (1, 2, 3):
-        mid = "%s-%d" % (pid, k)
+        mid = "%s-%d" % (pid, k + OFF)
         diff = os.path.join(out, "change%d.diff" % k)
         demo = os.path.join(out, "demo%d.rs" % k)
         if not (os.path.exists(diff) and os.path.exists(demo)):
